@@ -1,5 +1,5 @@
 # replay of a bounded stand-in violation: re-run native/c01_backends.py
 import sys
-print('fock lossChannel(T=0.9, cutoff=2): the Kraus operators are not complete, sum E^+E has diagonal [1.0, 0.9] (trace lost without any truncation)')
+print("MeasureHeterodyne(0.2, -0.3) | q[1] of 2 on gaussian: ('quad', 0, 0.0) = [0.0659, 0.7253], the documented action gives [0.0661, 0.7256]")
 print('REPLAY-VIOLATION')
 sys.exit(1)
